@@ -159,7 +159,7 @@ Proof.
     + intros p k H. rewrite not_under_snoc in H. apply andb_true_iff in H as [H _]. exact H.
     + intros p a _ _ H E. rewrite not_under_snoc, H in E. cbn in E. apply negb_false_iff in E. right. exact E.
     + intros p i _ H E. rewrite not_under_snoc, H in E. cbn in E. apply negb_false_iff in E. exact E.
-    + destruct Hmode as [Z|I]; [left; exact Z|right]. intros p i H.
+    + destruct Hmode as [Z|I]; [left; exact Z|right]. intros p H. left. intros i.
       rewrite not_under_snoc, H, (I p i H). reflexivity.
     + right. reflexivity.
     + apply keys_all_true.
